@@ -171,6 +171,9 @@ func stack() []byte {
 
 var hugeLiteral = regexp.MustCompile(`[0-9]{7,}`)
 
+// hugeConstant matches the other spellings of a huge constant used as an array length in the corpus (issue 545).
+var hugeConstant = regexp.MustCompile(`\^uint(64)?\(0\)|1\s*<<\s*[3-6][0-9]`)
+
 var frameRe = regexp.MustCompile(`github\.com/open2b/scriggo[^\s(]*\.([A-Za-z_(*)\.0-9]+)\(`)
 
 // firstFrame returns the first scriggo function in a stack dump (the identity of a crash site).
@@ -229,6 +232,8 @@ func worker() {
 				if hugeLiteral.Match(s) {
 					// identity of the known resource-exhaustion finding (huge array types); any other hang is a different finding
 					where += "|source has a 7+ digit literal"
+				} else if hugeConstant.Match(s) {
+					where += "|source has a ^uint(0) or 1<<NN constant"
 				}
 				writeObs(out, c, oc[:ri+1], where)
 				os.Exit(3)
